@@ -3,6 +3,7 @@
 package pipc
 
 import (
+	"github.com/goatcms/goatcore/app/modules/commonm/commservices"
 	"github.com/goatcms/goatcore/zzverif/nd"
 )
 
@@ -45,6 +46,12 @@ func ZZVerifC15Parse() {
 	keys := nd.StringUpTo("keys", nd.Param("N", 4))
 	mode := nd.Bool("mode")
 	dest := map[string]bool{}
+	// pip:run parses the read list first and the write list second into one
+	// map: a resource named in both must end up with write access
+	if nd.Bool("named-in-read-list-before") {
+		nd.Assume(mode == commservices.LockRW)
+		markBoolMapForNamespace(keys, "ns:", commservices.LockR, dest)
+	}
 	err := markBoolMapForNamespace(keys, "ns:", mode, dest)
 	// reference
 	var rows []string
